@@ -792,7 +792,7 @@ func (r *run) pump(f *focus, g *kernel.Rng, faults []MongoFault, stopAnswered bo
 			}
 			r.answerCmd(it.p, faults)
 		case "resp":
-			if n := r.holdNext[it.c.client]; n > 0 && it.c.method == "ProcessPushPull" {
+			if n := r.holdNext[it.c.client]; n > 0 && it.c.method == "ProcessPushPull" && !r.explicitSyncOutstanding(it.c.client) {
 				// the network is slow on this answer: it arrives after the next n events (other
 				// exchanges of the same client - a pull caused by a notification - may overtake it)
 				delete(r.holdNext, it.c.client)
@@ -822,6 +822,20 @@ func (r *run) pump(f *focus, g *kernel.Rng, faults []MongoFault, stopAnswered bo
 		w.tick(w.smallLatency())
 	}
 	r.harness("pump did not terminate")
+}
+
+// explicitSyncOutstanding: the application itself is inside Sync() (perhaps still waiting for the
+// delivery semaphore). An answer to that exchange is not held back: operations issued while an
+// explicit Sync() holds the semaphore stay in the buffer until the next delivery - C18 speaks of
+// clients that only perform local operations (DESIGN 11.2, engine C as second engine of C18).
+func (r *run) explicitSyncOutstanding(client string) bool {
+	a := r.actorByName(client)
+	if a == nil {
+		return false
+	}
+	a.mu.Lock()
+	defer a.mu.Unlock()
+	return a.syncing > 0
 }
 
 // hasPending: are database commands of this owner waiting for an answer?
